@@ -39,11 +39,15 @@ WHAT IS ENUMERATED
     content; old-or-new is demanded at every crash point as always;
   * PATH KINDS: the settings path in a nested directory, as a symbolic link to a file in the
     same / in another directory, as a relative path (cwd inside the sandbox), each ordinary
-    and faulted;
+    and faulted; settings file names of 245 / 250 / 254 / 255 bytes (NAME_MAX boundary: the temp
+    name does not fit — a save() that raises and leaves the old file intact is fine);
   * INITIAL DIRECTORY: every distinct crash state of a first save() (its leftover temp files
     and whichever content the target then has) is the initial directory of a second save()
     of shorter and of longer content; old-or-new is demanded of the second save's crash
-    points and final state.
+    points and final state;
+  * TWO SAVERS: two processes with different pids save the same file, the second is killed
+    mid-save: the two recorded traces are interleaved at every operation boundary and
+    materialised (oracle only; the model has one writer per path).
 """
 import asyncio
 import builtins
@@ -77,6 +81,7 @@ TRUSTED = ["the recording wrappers and the step-by-step crash-state materialiser
 
 UNI = "\U0001F34Fé中"
 PATH_KINDS = ["plain", "nested", "symlink-same", "symlink-other", "relative", "relative-nested"]
+NAME_KINDS = ["name-245", "name-250", "name-254", "name-255"]      # file-name length in bytes, at the NAME_MAX boundary
 
 
 # --------------------------------------------------------------------------- sandbox layout
@@ -106,6 +111,10 @@ def make_layout(root, kind, target_bytes, extras):
     elif kind == "relative":
         cwd, given = live, "pyatv.conf"
         abs_ = real = os.path.join(live, "pyatv.conf")
+    elif kind.startswith("name-"):
+        # a settings file name at the NAME_MAX boundary (bytes): <name>.tmp<pid> no longer fits
+        n = int(kind.split("-")[1])
+        given = abs_ = real = os.path.join(live, "c" * (n - 5) + ".conf")
     elif kind == "relative-nested":
         os.makedirs(os.path.join(live, "sub"))
         cwd, given = live, os.path.join("sub", "pyatv.conf")
@@ -332,11 +341,12 @@ class Recorder:
                 return real_open(file, mode, buffering, encoding, *a, **k)
             rec.attempt("open")
             key, fid = os.path.realpath(ap), rec.new_fid()
+            fh = real_open(file, mode, buffering, encoding, *a, **k)     # an open that raises (ENAMETOOLONG…) is no operation
             if "w" in mode and "+" not in mode and "opener" not in k:
                 rec.add(("o", fid, rec.rel(ap), True), "o:" + rec.tok(key))
             else:
                 rec.add(("x", "open-" + mode), "unknown-open-" + mode.replace(":", ""))
-            return wrap(real_open(file, mode, buffering, encoding, *a, **k), fid, key, encoding)
+            return wrap(fh, fid, key, encoding)
 
         def osopen(path, flags, mode=0o777, *a, **k):
             ap = rec.inside(path) if not isinstance(path, int) else None
@@ -345,13 +355,13 @@ class Recorder:
                 return os_open(path, flags, mode, *a, **k)
             rec.attempt("open")
             key, fid = os.path.realpath(ap), rec.new_fid()
+            fd = os_open(path, flags, mode, *a, **k)
             if flags & (os.O_APPEND | os.O_RDWR):
                 rec.add(("x", "os.open-%o" % flags), "unknown-os-open-%o" % flags)
             elif flags & os.O_TRUNC:
                 rec.add(("o", fid, rec.rel(ap), True), "o:" + rec.tok(key))
             else:
                 rec.add(("o", fid, rec.rel(ap), False), "k:" + rec.tok(key))
-            fd = os_open(path, flags, mode, *a, **k)
             rec.raw_fds[fd] = (fid, key)
             return fd
 
@@ -913,6 +923,101 @@ def with_faults(ctx, loop, sc, full, jobs, want_states=False):
     return res
 
 
+def record_save(loop, root, sub, kind, old_bytes, new_devs, pid):
+    """one real save() of `new_devs` over the old file, by a process that sees `pid`:
+    (raw trace, canonical new content, exception class or None)"""
+    from pyatv.storage.file_storage import FileStorage
+
+    box = os.path.join(root, sub)
+    given, cwd, abs_settings = make_layout(box, kind, old_bytes, {})
+    cwd0 = os.getcwd()
+    try:
+        if cwd:
+            os.chdir(cwd)
+        st = FileStorage(given, loop)
+        loop.run_until_complete(st.load())
+        for s_ in list(st.settings):
+            loop.run_until_complete(st.remove_settings(s_))
+        _populate(loop, st, _uniq(new_devs))
+        content_new = _content(st)
+        if not st.changed:
+            return None
+        rec = Recorder(box, abs_settings, pid=pid)
+        raised = None
+        with rec:
+            try:
+                loop.run_until_complete(st.save())
+            except Exception as e:
+                raised = type(e).__name__
+        return rec.raw, content_new, raised
+    finally:
+        os.chdir(cwd0)
+
+
+def concurrent_savers(ctx, loop, sc, new_b, only=None):
+    """Two processes (different pids — e.g. a parent and a forked worker) own a FileStorage on
+    the same settings file and save at the same time; the second one is KILLED mid-save.  The
+    two really recorded traces are interleaved at every operation boundary: A runs i operations,
+    B runs j operations and dies with k bytes of its unflushed data persisted, A runs to the end.
+    The file must afterwards load and hold the old, A's or B's complete content."""
+    root = tempfile.mkdtemp(prefix="verif-c15-", dir="/tmp")
+    try:
+        kind = sc.get("kind") or "plain"
+        old_bytes = None if sc.get("old_hex") is None else bytes.fromhex(sc["old_hex"])
+        ra = record_save(loop, root, "A", kind, old_bytes, sc["new"], os.getpid())
+        rb = record_save(loop, root, "B", kind, old_bytes, new_b, os.getpid() + 1)
+        if ra is None or rb is None or ra[2] or rb[2] or any(op[0] == "x" for op in ra[0] + rb[0]):
+            ctx.note("concurrent-savers:skipped")
+            return
+        ta = ra[0]
+        tb = [((op[0], op[1] + 1000) + tuple(op[2:])) if op[0] in "owfsc" else op for op in rb[0]]
+        box0 = os.path.join(root, "old")
+        _g, _c, abs0 = make_layout(box0, kind, old_bytes, {})
+        content_old = _fresh_load(loop, abs0)[1]
+        allowed = [("ok", content_old), ("ok", ra[1]), ("ok", rb[1])]
+        n = 0
+        for i in range(len(ta) + 1):
+            for j in range(1, len(tb) + 1):
+                for k in (0, 1, 40):
+                    if only is not None and [i, j, k] != only:
+                        continue
+                    n += 1
+                    r = _Replayer(os.path.join(root, "x%d" % n), kind, old_bytes, {})
+                    try:
+                        for op in ta[:i]:
+                            r.step(op)
+                        for op in tb[:j]:
+                            r.step(op)
+                        for fid in [f for f in list(r.pend) if f >= 1000]:      # B is killed
+                            r._persist(fid, k)
+                            r.pend.pop(fid, None)
+                            fh = r.fds.pop(fid, None)
+                            if fh:
+                                fh.close()
+                        for op in ta[i:]:
+                            try:
+                                r.step(op)
+                            except OSError:
+                                break          # A's operation fails in this interleaving: A's save() raises here
+                    finally:
+                        r.close_all()
+                    content = read_through(r.settings)
+                    obs = _fresh_load(loop, r.settings)
+                    shutil.rmtree(r.root, ignore_errors=True)
+                    ctx.case(["concurrent", sc["pair"], i, j, k], True)
+                    ctx.note("concurrent-savers:interleaving")
+                    if obs not in allowed:
+                        ctx.fail("concurrent-savers:%s" % ("load-raises" if obs[0] == "raises" else "neither-old-nor-new"),
+                                 {"pair": sc["pair"], "kind": kind, "old_hex": sc.get("old_hex"), "new": sc["new"], "new_b": new_b,
+                                  "concurrent": [i, j, k], "target_hex": _hex(content)},
+                                 obs, "load() gives the complete old content or the complete content of one of the two savers",
+                                 "two processes save the same settings file; the second is killed after %d of its %d file operations "
+                                 "(persisted prefix %d) while the first is after %d of its %d: the settings file afterwards %s"
+                                 % (j, len(tb), k, i, len(ta), "does not load" if obs[0] == "raises" else "is neither old nor new"))
+    finally:
+        shutil.rmtree(root, ignore_errors=True)
+
+
 def second_saves(ctx, loop, sc, states, jobs, limit):
     """every distinct crash state of the first save is the initial directory of a second
     save of shorter and of longer content"""
@@ -936,7 +1041,7 @@ def run(ctx, only=None):
         else:
             gen = tempfile.mkdtemp(prefix="verif-c15-gen-", dir="/tmp")
             try:
-                pairs = fixed_pairs() + random_pairs(ctx.rng.fork("pairs"), ctx.scale(3, 30))
+                pairs = fixed_pairs() + random_pairs(ctx.rng.fork("pairs"), ctx.scale(2, 30))
                 scs = []
                 for label, old, new, mode in pairs:
                     ob = old_bytes_of(loop, gen, old)
@@ -953,13 +1058,24 @@ def run(ctx, only=None):
                         second_saves(ctx, loop, sc, res["states"], jobs, ctx.scale(3, 8))
                 except Exception as e:  # changed code must not crash the harness
                     ctx.disagree({"pair": sc["pair"]}, "harness step raised %s: %s" % (type(e).__name__, e), "n/a", where="run_scenario")
-            kind_pairs = ["grow", "shrink", "nofile->nonempty"] + (["unicode", "nonempty->emptylist", "random0", "random1"] if ctx.thorough else [])
+            kind_pairs = ["grow", "nofile->nonempty"] + (["shrink", "unicode", "nonempty->emptylist", "random0", "random1"] if ctx.thorough else [])
             for kind in PATH_KINDS[1:]:
                 for label in kind_pairs:
                     if label not in by_label:
                         continue
                     try:
                         with_faults(ctx, loop, dict(by_label[label], kind=kind), False, jobs)
+                    except Exception as e:
+                        ctx.disagree({"pair": label, "kind": kind}, "harness step raised %s: %s" % (type(e).__name__, e), "n/a", where="run_scenario")
+            for label, nb in (("grow", [_dev(9, cred="worker")]), ("shrink", BIG[:2])) + ((("unicode", [_dev(1, cred=UNI * 5)]),) if ctx.thorough else ()):
+                try:
+                    concurrent_savers(ctx, loop, by_label[label], nb)
+                except Exception as e:
+                    ctx.disagree({"pair": label, "concurrent": True}, "harness step raised %s: %s" % (type(e).__name__, e), "n/a", where="concurrent_savers")
+            for kind in NAME_KINDS:
+                for label in ["grow", "shrink"]:
+                    try:
+                        run_scenario(ctx, loop, dict(by_label[label], kind=kind), False, jobs)
                     except Exception as e:
                         ctx.disagree({"pair": label, "kind": kind}, "harness step raised %s: %s" % (type(e).__name__, e), "n/a", where="run_scenario")
     finally:
@@ -971,6 +1087,15 @@ def run(ctx, only=None):
 
 def replay(ctx, failure):
     case = failure["case"]
+    if case.get("concurrent"):
+        c2 = type(ctx)(ctx.prop, ctx.tier, ctx.seed, ctx.driver.driver_rel)
+        loop = asyncio.new_event_loop()
+        try:
+            concurrent_savers(c2, loop, case, case["new_b"], only=case["concurrent"])
+        finally:
+            loop.run_until_complete(loop.shutdown_default_executor())
+            loop.close()
+        return bool(c2.failures)
     sc = {k: case.get(k) for k in ("pair", "kind", "old_hex", "extras", "new", "mode", "pid", "expect_new_hex")}
     c2 = type(ctx)(ctx.prop, ctx.tier, ctx.seed, ctx.driver.driver_rel)
     run(c2, only=[sc])
